@@ -578,6 +578,56 @@ Definition all_actual : list actual :=
     {| c_version := v; c_shape := s; c_codec := c; c_compression := z; c_tls := t |})
     all_tls) all_compressions) all_codecs) all_shapes) all_versions.
 
+(* ---------- internal/printer.go: the printer that run() (server.go) makes of the server's stderr ---------- *)
+(* run() does `errPrinter := internal.NewPrinter(errWriter)` and hands it to createServer, which hands it to
+   referenceServerChecks; every check writes through feedbackPrinter.Printf(format, args...) =
+   errPrinter.PrefixPrintf(testCaseName, format, args...).  NewPrinter = safePrinter over a peekWriter: the
+   bytes that reached the underlying writer and the last byte written so far. *)
+Record pw := { pw_out : bytes; pw_last : N }.
+Definition pw_init : pw := {| pw_out := []; pw_last := 0%N |}.
+Definition pw_write (w : pw) (data : bytes) : pw :=
+  {| pw_out := pw_out w ++ data; pw_last := last data (pw_last w) |}.    (* `if n > 0 { p.last = data[n-1] }` *)
+Definition sep_colon : bytes := [58; 32]%N.                              (* ": " *)
+(* safePrinter.PrefixPrintf(prefix, format, args...), `msg` being the formatted message
+   (fmt.Sprintf(format, args...): package fmt is not modelled).  Two writes under one lock region:
+   Fprintf(w, "%s: ", prefix) - the prefix is an ARGUMENT of the verb %s, so its bytes are copied and never
+   read as a format - then Fprintf(w, format, args...), then a newline unless the last byte written is one. *)
+Definition prefix_printf (w : pw) (prefix msg : bytes) : pw :=
+  let w1 := pw_write w (prefix ++ sep_colon) in
+  let w2 := pw_write w1 msg in
+  if (pw_last w2 =? 10)%N then w2 else pw_write w2 [10%N].
+
+Section Printer.
+(* how a feedback kind reads: the formatted message of the check that writes it *)
+Variable text : kind -> bytes.
+(* the checks write their lines in order, each through feedbackPrinter{p: errPrinter, testCaseName: name} *)
+Definition print_feedback (w : pw) (name : bytes) (f : fb) : pw :=
+  fold_left (fun w k => prefix_printf w name (text k)) f w.
+(* what a handled request adds to the server's stderr *)
+Definition stderr_of (w : pw) (o : outcome) : pw :=
+  match o with Served name f _ _ => print_feedback w name f | Rejected => w end.
+End Printer.
+
+(* the reading end (server_runner.go, the goroutine over serverProcess.stderr): a line is trimmed
+   (strings.TrimSpace; ASCII white space here), split at the FIRST ": " (strings.SplitN(str, ": ", 2)) and is
+   side-band feedback for a test case iff the part before is one of the batch's test names *)
+Fixpoint split_sep (s : bytes) : option (bytes * bytes) :=
+  match s with
+  | [] => None
+  | c :: s' =>
+    if (c =? 58)%N && (match s' with d :: _ => (d =? 32)%N | [] => false end)
+    then Some ([], tl s')
+    else match split_sep s' with Some (a, b) => Some (c :: a, b) | None => None end
+  end.
+Definition sideband (names : list bytes) (line : bytes) : option (bytes * bytes) :=
+  match split_sep (trim_space line) with
+  | Some (n, m) => if mem_bytes n names then Some (n, m) else None
+  | None => None
+  end.
+(* ReadString('\n') until the end, blank lines skipped *)
+Definition stderr_lines (s : bytes) : list bytes :=
+  filter (fun l => match trim_space l with [] => false | _ => true end) (split_on 10%N s).
+
 (* ---------- case decoding / result encoding (extracted glue) ---------- *)
 Definition sx_kind (k : kind) : sx :=
   match k with
@@ -984,6 +1034,44 @@ Definition run_c12_runlive (args : list sx) : sx :=
          (combine cs (run_batch i cs))))
   | _ => None end).
 
+(* c12.print: (request ...) on one wrapped handler whose printer is the REAL internal.NewPrinter over a buffer:
+   per request the bytes that reached the buffer, read back the way the runner reads the server's stderr
+   (the batch's test names = the names of the case's requests): per line (test name, feedback kind) - the kind
+   standing for the message: the harness reports the kind of a line only when the text after the split IS
+   fmt.Sprintf of the recorded format and arguments - plus whether the bytes are exactly
+   name ++ ": " ++ message ++ newline per line.  The extracted model prints a kind as `kind_text`. *)
+Definition kind_text (k : kind) : bytes := lit "expected %d: instead got %v%% #" ++ [Z.to_N (kind_tag k + 64)].
+Definition ensure_nl (m : bytes) : bytes := if (last m 0 =? 10)%N then m else m ++ [10%N].
+Fixpoint zip_lines (names : list bytes) (lines : list bytes) (f : fb) : option (list sx) :=
+  match lines, f with
+  | [], [] => Some []
+  | l :: lines', k :: f' =>
+    do rest <- zip_lines names lines' f';
+    ret (match sideband names l with
+         | Some (n, m) => L [B n; if bytes_eqb m (trim_right (kind_text k)) then sx_kind k else sx_err "garbled-message"]
+         | None => sx_err "unattributed"
+         end :: rest)
+  | _, _ => None
+  end.
+Fixpoint print_seq (names : list bytes) (w : pw) (os : list outcome) : list sx :=
+  match os with
+  | [] => []
+  | o :: os' =>
+    let w' := stderr_of kind_text w o in
+    let delta := skipn (length (pw_out w)) (pw_out w') in
+    match o with
+    | Rejected => L [B (lit "rejected")]
+    | Served name f _ _ =>
+      L [ sx_bool (bytes_eqb delta (concat (map (fun k => name ++ sep_colon ++ ensure_nl (kind_text k)) f)));
+          match zip_lines names (stderr_lines delta) f with Some ls => L ls | None => sx_err "line-count" end ]
+    end :: print_seq names w' os'
+  end.
+Definition run_c12_print (args : list sx) : sx :=
+  or_bad (match args with
+  | [rs] => do rs <- un_listof un_request rs;
+            ret (L (print_seq (map (fun r => first (x_name r)) rs) pw_init (run_seq Z.quot [] rs)))
+  | _ => None end).
+
 Definition c12_table : list (bytes * (list sx -> sx)) :=
   [ (lit "c12.seq", run_c12_seq);
     (lit "c12.matrix", run_c12_matrix);
@@ -993,4 +1081,5 @@ Definition c12_table : list (bytes * (list sx -> sx)) :=
     (lit "c12.events", run_c12_events);
     (lit "c12.live", run_c12_live);
     (lit "c12.runner", run_c12_runner);
-    (lit "c12.runlive", run_c12_runlive) ].
+    (lit "c12.runlive", run_c12_runlive);
+    (lit "c12.print", run_c12_print) ].
